@@ -16,6 +16,10 @@ theorem ofTup_tup (e : Elem) : ofTup (tup e) = e := rfl
 
 def vtup (v : Vec4) : Int × Int × Int × Int := (v.x0, v.x1, v.x2, v.x3)
 
+def ofVtup (r : Int × Int × Int × Int) : Vec4 := ⟨r.1, r.2.1, r.2.2.1, r.2.2.2⟩
+
+theorem ofVtup_vtup (v : Vec4) : ofVtup (vtup v) = v := rfl
+
 theorem coord_add_gen (a b : Vec4) :
     SqiGen.QuatAlg.quat_alg_coord_add a.x0 a.x1 a.x2 a.x3 b.x0 b.x1 b.x2 b.x3 = vtup (a.add b) := rfl
 
@@ -59,5 +63,25 @@ theorem coord_is_zero_gen (v : Vec4) : SqiGen.QuatAlg.quat_alg_coord_is_zero v.x
 
 theorem elem_is_zero_gen (x : Elem) :
     SqiGen.QuatAlg.quat_alg_elem_is_zero x.denom x.coord.x0 x.coord.x1 x.coord.x2 x.coord.x3 = elemIsZero x := rfl
+
+/-- `quat_alg_normalize` (in place; the one-armed `if (0 < ibz_cmp(&zero, &x->denom))` as if-then-else per field;
+    `ibz_content` = the header formula gcd(v3, gcd(v2, gcd(v0, v1)))) -/
+theorem normalize_gen (x : Elem) :
+    SqiGen.QuatAlg.quat_alg_normalize x.denom x.coord.x0 x.coord.x1 x.coord.x2 x.coord.x3 = tup (algNormalize x) := by
+  have key : ∀ (c : Prop) [Decidable c] (A B : Elem), tup (if c then A else B) = if c then tup A else tup B := by
+    intro c _ A B; split <;> rfl
+  obtain ⟨d, ⟨x0, x1, x2, x3⟩⟩ := x
+  simp only [algNormalize, key]
+  split <;> simp only [SqiGen.QuatAlg.quat_alg_normalize] <;> split <;> first | rfl | exact absurd ‹_ < _› ‹¬ _›
+
+/-- `from_1ijk_to_O0basis` (the `if (!ibz_is_one(&el->denom))` block as if-then-else; the debug-only asserts are dropped) -/
+theorem o0basis_gen (el : Elem) :
+    SqiGen.QuatAlg.from_1ijk_to_O0basis el.denom el.coord.x0 el.coord.x1 el.coord.x2 el.coord.x3 =
+      vtup (from1ijkToO0 el) := by
+  have key : ∀ (c : Prop) [Decidable c] (A B : Vec4), vtup (if c then A else B) = if c then vtup A else vtup B := by
+    intro c _ A B; split <;> rfl
+  obtain ⟨d, ⟨x0, x1, x2, x3⟩⟩ := el
+  simp only [from1ijkToO0, key]
+  split <;> simp only [SqiGen.QuatAlg.from_1ijk_to_O0basis] <;> split <;> first | rfl | contradiction
 
 end SqiProofs.QuatAlgText
